@@ -104,6 +104,17 @@ int sk_pthread_join(pthread_t th, void **ret) {
     if (ret) *ret = R->threads[tid]->ret;
     return 0;
 }
+// pthread_once is the real one (process-wide, like the key it guards); the race detector learns the edge
+static void (*g_once_fn)(void);
+static bool g_once_ran;
+static void once_tramp(void) { g_once_ran = true; g_once_fn(); }
+int sk_pthread_once(pthread_once_t *o, void (*fn)(void)) {
+    g_once_fn = fn;
+    g_once_ran = false;
+    int rc = pthread_once(o, once_tramp);
+    if (g_once_ran) race_once_exit(); else race_once_enter();
+    return rc;
+}
 int sk_pthread_mutex_init(pthread_mutex_t *m, const pthread_mutexattr_t *a) { (void)a; return mutex_init(m); }
 int sk_pthread_mutex_destroy(pthread_mutex_t *m) { return mutex_destroy(m); }
 int sk_pthread_mutex_lock(pthread_mutex_t *m) { return mutex_lock(m); }
